@@ -7,7 +7,7 @@
    Byte transport (json, zipfile, TextIOWrapper) is not modelled: it is exercised by the correspondence. *)
 From Coq Require Import List ZArith Bool String.
 From NT Require Import Sx Rose Serialize SerializeSpec SerCompressProofs SerWriterProofs SerReaderProofs SerIsoProofs SerializeProofs
-     SerTheorems SerWitness.
+     SerTheorems SerWitness SerIsoRenamed SerWitness2.
 From NTGen Require Import Generated.
 Import ListNotations.
 Open Scope list_scope.
@@ -67,6 +67,37 @@ Theorem C05_no_spurious_unique_error : forall c ser deser shash f,
 Proof. exact described_unique_of_source. Qed.
 Print Assumptions C05_no_spurious_unique_error.
 
+(* 5b. Data whose default id does NOT survive a rebuild (identity-hashed: plain objects, DictWrapper,
+       FileSystemEntry).  [id_stable] is replaced by: the loaded ids are a renaming rho of the stored ones
+       (the id rebuilt for the first occurrence), every later occurrence of a data_id has the kind of the
+       first one (always true in a plain Tree) and rho does not merge ids of the tree.  Then shape, order,
+       rebuilt data, kinds and the clone partition are reproduced (data_ids up to rho). *)
+Theorem C05_roundtrip_any_data : forall c ser deser shash f ko vo meta,
+  tree_ok c f -> opts_ok c ser ko vo meta f -> mapper_ok c ser deser f ->
+  clones_same_kind f -> rho_inj f (rho_of c ser deser shash f) ->
+  exists j f', save_doc c ser ko vo meta f = Ok j /\
+               load_doc c deser shash j = Ok (header_spec (resolve_km c ko) (resolve_vm c vo f) meta, f') /\
+               iso_upto (rho_of c ser deser shash f) f f' /\
+               map rdid (pre_f f') = map (rho_of c ser deser shash f) (map rdid (pre_f f)) /\
+               ids f' = seq 1 (size_f f).
+Proof. exact roundtrip_any_data. Qed.
+Print Assumptions C05_roundtrip_any_data.
+
+(* ... for an arbitrary renaming *)
+Theorem C05_roundtrip_renamed : forall c ser deser shash f rho ko vo meta,
+  tree_ok c f -> opts_ok c ser ko vo meta f -> mapper_ok c ser deser f ->
+  ids_renamed c ser deser shash f rho -> rho_inj f rho ->
+  exists j f', save_doc c ser ko vo meta f = Ok j /\
+               load_doc c deser shash j = Ok (header_spec (resolve_km c ko) (resolve_vm c vo f) meta, f') /\
+               iso_upto rho f f' /\ map rdid (pre_f f') = map rho (map rdid (pre_f f)) /\ ids f' = seq 1 (size_f f).
+Proof. exact roundtrip_renamed. Qed.
+Print Assumptions C05_roundtrip_renamed.
+
+(* in a plain Tree (and FileSystemTree) every clone has the kind of its first occurrence *)
+Theorem C05_plain_clones_same_kind : forall c f, is_typed c = false -> kinds_ok c f -> clones_same_kind f.
+Proof. exact plain_clones_same_kind. Qed.
+Print Assumptions C05_plain_clones_same_kind.
+
 (* 6. KNOWN FINDING D40.  The statement without [id_stable] (all other hypotheses kept, the reader's
       uniqueness condition granted) is false: a clone whose kind differs from its first occurrence's is
       written as an independent full entry; if the rebuilt object has a fresh default id (identity-hashed
@@ -87,6 +118,25 @@ Theorem C05_D40_witness :
   end.
 Proof. exact d40_partition. Qed.
 Print Assumptions C05_D40_witness.
+
+(* non-vacuity of 5b: f_id (plain tree, an identity-hashed object cloned, fresh hashes on every rebuild):
+   all hypotheses hold although id_stable does not, the ids change and the clone pair stays a pair *)
+Example C05_any_data_hypotheses_satisfiable :
+  tree_ok CPlain f_id /\ opts_ok CPlain wser KTrue VTrue ex_meta f_id /\ mapper_ok CPlain wser (wdeser false) f_id /\
+  clones_same_kind f_id /\ rho_inj f_id (rho_of CPlain wser (wdeser false) whash f_id) /\
+  ~ id_stable CPlain wser (wdeser false) whash f_id.
+Proof. exact f_id_hypotheses. Qed.
+Example C05_any_data_example :
+  match save_doc CPlain wser KTrue VTrue [] f_id with
+  | Ok j => match load_doc CPlain (wdeser false) whash j with
+            | Ok (_, f') => let ds := map rdid (pre_f f') in
+                            nth 0 ds (DInt 0) = nth 2 ds (DInt 1) /\ nth 0 ds (DInt 0) <> DInt 77 /\
+                            nth 0 ds (DInt 0) <> nth 3 ds (DInt 0)
+            | Err _ => False
+            end
+  | Err _ => False
+  end.
+Proof. exact f_id_roundtrip. Qed.
 
 (* ---- non-vacuity: all hypotheses of C05_roundtrip / C05_option_independent hold on f_ty (typed, a clone
    of another kind, value-hashed data) with default and with custom maps, and on f_ex *)
